@@ -28,6 +28,7 @@ func init() {
 }
 
 func runC05(c *core.Ctx) {
+	checkEncoderCounts(c, "C05.count-matches-elements", func(rel string) bool { return strings.HasPrefix(rel, "p2pserver/message") }, 1, 1)
 	n := checkCodecPairs(c, "C05.schema", func(p codecPair) bool { return strings.HasPrefix(p.Pkg, "p2pserver/") })
 	c.Floor("codec pairs under p2pserver/", n, 14)
 	decs := decoderFuncs(c, func(rel string) bool { return strings.HasPrefix(rel, "p2pserver/message") })
